@@ -722,10 +722,30 @@ async fn garble(
                     let row2_label = label_gamma_0 ^ row2.xor_keys() ^ (row2.bit() & delta);
                     let row3_label = label_gamma_0 ^ row3.xor_keys() ^ (row3.bit() & delta);
 
+                    #[cfg(not(feature = "__verif"))]
                     let garbled0 = encrypt(&k0, (row0.bit(), row0.macs(), row0_label))?;
+                    #[cfg(not(feature = "__verif"))]
                     let garbled1 = encrypt(&k1, (row1.bit(), row1.macs(), row1_label))?;
+                    #[cfg(not(feature = "__verif"))]
                     let garbled2 = encrypt(&k2, (row2.bit(), row2.macs(), row2_label))?;
+                    #[cfg(not(feature = "__verif"))]
                     let garbled3 = encrypt(&k3, (row3.bit(), row3.macs(), row3_label))?;
+                    // verification tap: a cheating garbler that puts a shortened MAC list into its rows
+                    #[cfg(feature = "__verif")]
+                    let (garbled0, garbled1, garbled2, garbled3) = {
+                        let keep = crate::verif::tap_usize("garble_macs_keep", usize::MAX);
+                        let macs = |row: &Share| {
+                            let mut m = row.macs();
+                            m.truncate(keep);
+                            m
+                        };
+                        (
+                            encrypt(&k0, (row0.bit(), macs(&row0), row0_label))?,
+                            encrypt(&k1, (row1.bit(), macs(&row1), row1_label))?,
+                            encrypt(&k2, (row2.bit(), macs(&row2), row2_label))?,
+                            encrypt(&k3, (row3.bit(), macs(&row3), row3_label))?,
+                        )
+                    };
 
                     preprocessed_gates.push(GarbledGate([garbled0, garbled1, garbled2, garbled3]));
                     shares[inst.out] = rand_share;
